@@ -240,12 +240,12 @@ fn check_status_bytes(bytes: &[u8], expect: u8) -> Verdict {
 }
 
 pub fn run(ctx: &'static Ctx) {
-    ctx.rule("state = (seed message, at most one fault); seeds are both anchors and every single-optional-member message of every parameter-bearing command; each faulted message is decoded by the real code and its status compared with the fault class's status; non-trivial = a fault is applied");
+    ctx.rule("state = (seed message, at most one fault); seeds are both anchors and every single-optional-member message of every parameter-bearing command (thorough: every member subset within two flips of either anchor); each faulted message is decoded by the real code and its status compared with the fault class's status; non-trivial = a fault is applied");
     ctx.assume("single faults only; sign changes of signed members and null for optional members are not asserted; lossy members (names, user icon, rp icon, algorithm / format lists) have no over-limit fault");
     // fault enumeration as a depth-1 explicit-state search
     let mut seeds = Vec::new();
     let mut class_counts: std::collections::BTreeMap<&'static str, u64> = Default::default();
-    for (label, target, wire, _bytes) in all_seeds() {
+    for (label, target, wire, _bytes) in all_seeds_with(ctx.thorough()) {
         let faults = faults_of(&target, &wire);
         for f in &faults {
             *class_counts.entry(f.class).or_insert(0) += 1;
